@@ -3,7 +3,7 @@ import glob, json, os
 from fractions import Fraction
 from harness import common
 
-REQ = ["Verif.lib.ReconnectorBase", "Verif.gen.ReconnectorGen", "Verif.lib.Reconnector"]
+REQ = ["Coq.QArith.QArith", "Verif.lib.ReconnectorBase", "Verif.gen.ReconnectorGen", "Verif.lib.Reconnector"]
 
 
 def coq_event(ev):
@@ -71,7 +71,8 @@ def run(ctx):
             continue
         if viol:
             report(viol, evs, corpus=os.path.basename(p))
-        corpus.append((evs, obs))
+        else:
+            corpus.append((evs, obs))
 
     # ---- 1. real Tubs on the in-memory network
     for name, sig, good, detail in impl.real_tub_scenarios():
@@ -111,8 +112,11 @@ def run(ctx):
                 w = [(0.3 if a in ("stop", "reset") and i < L - 8 else 1.0) for a in en]
                 a = ctx.rng.choices(en, w)[0]
                 ev = ("fail", Fraction(ctx.rng.randint(-128, 128), 16), ctx.rng.randint(0, 4)) if a == "fail" else (a,)
-                drv.do(ev)
                 evs.append(ev)
+                try:
+                    drv.do(ev)
+                except Exception:
+                    break           # reported by run_sequence below as oracle/exception-in-reconnector
         finally:
             drv.close()
         obs, viol, done = impl.run_sequence(evs, cb_raises=cbr)
@@ -124,7 +128,8 @@ def run(ctx):
                 impl.run_sequence(c, cb_raises=cbr)))
             o2, v2, _ = impl.run_sequence(shrunk, cb_raises=cbr)
             report(v2 or viol, shrunk if v2 else evs, cb_raises=cbr)
-        longs.append((evs, obs))
+        else:
+            longs.append((evs, obs))
 
     # ---- 4. correspondence with the Coq model
     model_ok = ok
